@@ -7,9 +7,11 @@
 // Scaffolding: a serde `Deserializer` with a ghost model of the one CBOR item it holds (null / a text / anything else,
 // and it may fail), the `Deserialize` contracts of `&str` and `Option<&str>` over that model (serde's impls: a text is
 // borrowed verbatim, null is None, any other item is an error), the assumed contract of heapless
-// `Vec::extend_from_slice`, `str::parse` = `FromStr::from_str`, and the *contract* of `truncate` (not its body: the
-// body, `floor_char_boundary` and the char-boundary predicate are proved against this contract by the Kani harnesses
-// c13_k_truncate_*, c13_k_floor_char_boundary_*).
+// `Vec::extend_from_slice`, `str::parse` = `FromStr::from_str`.
+//                                fn truncate, fn floor_char_boundary, const fn is_utf8_char_boundary — the real bodies, proved against the
+//                                C13 contract `truncated_to` for texts of ANY length and every capacity/index, under two stated axioms
+//                                about UTF-8 itself (A-UTF8) and three trusted wrappers for core (`rposition`, `unwrap_unchecked`, `&s[..k]`);
+//                                the unsafe `unwrap_unchecked` and the panicking `&s[..split]` / `.unwrap()` become proof obligations.
 use vstd::prelude::*;
 use vstd::string::StringSliceAdditionalSpecFns;
 
@@ -110,10 +112,96 @@ pub open spec fn truncated_to(text: Seq<u8>, out: Seq<u8>, limit: int) -> bool {
     &&& boundary(text, out.len() as int)
     &&& forall|k: int| out.len() < k <= limit && k <= text.len() ==> !boundary(text, k)
 }
+pub open spec fn cont(x: u8) -> bool { (x & 0xC0u8) == 0x80u8 }
+
+// ---- assumptions about UTF-8 itself (A-UTF8; mathematical facts about the encoding, not about the code) ----------------
+/// the bytes of a `&str` are well-formed UTF-8 (the type's safety invariant), and in well-formed UTF-8 a character is at most four bytes:
+/// among any four consecutive bytes at least one is not a continuation byte (10xxxxxx)
 #[verifier::external_body]
-fn truncate<const L: usize>(s: &str) -> (r: String<L>)
-    ensures truncated_to(str_bytes(s), r.bytes(), L as int),
-{ unimplemented!() }
+proof fn axiom_utf8_no_four_continuation_bytes(s: &str, k: int)
+    requires 0 <= k, k + 3 < str_bytes(s).len(),
+    ensures !cont(str_bytes(s)[k]) || !cont(str_bytes(s)[k + 1]) || !cont(str_bytes(s)[k + 2]) || !cont(str_bytes(s)[k + 3]),
+{}
+/// ... and the first byte of a non-empty text starts a character
+#[verifier::external_body]
+proof fn axiom_utf8_first_byte_not_continuation(s: &str)
+    requires str_bytes(s).len() > 0,
+    ensures !cont(str_bytes(s)[0]),
+{}
+
+// ---- trusted wrappers carrying the contracts of core functions ----------------------------------------------------
+/// core `Iterator::rposition` on `slice::Iter<u8>`: the last index whose element satisfies the predicate
+#[verifier::external_body]
+fn slice_rposition__<F: Fn(&u8) -> bool>(s: &[u8], f: F) -> (r: Option<usize>)
+    requires forall|i: int| 0 <= i < s@.len() ==> call_requires(f, (&s@[i],)),
+    ensures match r {
+        Some(k) => k < s@.len() && call_ensures(f, (&s@[k as int],), true)
+            && forall|j: int| #![auto] k < j < s@.len() ==> call_ensures(f, (&s@[j],), false),
+        None => forall|j: int| #![auto] 0 <= j < s@.len() ==> call_ensures(f, (&s@[j],), false),
+    }
+{ s.iter().rposition(f) }
+/// core `Option::unwrap_unchecked`: undefined behaviour on None — so `is Some` is a proof obligation at the (unsafe) call
+pub assume_specification<T>[ Option::<T>::unwrap_unchecked ](o: Option<T>) -> (r: T)
+    requires o is Some,
+    ensures r == o->Some_0;
+/// core `&s[..k]` on a `&str`: panics unless k <= len and k is a character boundary (`str::is_char_boundary`: 0, len, or a byte
+/// that is not 10xxxxxx) — the precondition is that panic condition
+#[verifier::external_body]
+fn str_prefix__(s: &str, k: usize) -> (r: &str)
+    requires k <= str_bytes(s).len(), boundary(str_bytes(s), k as int),
+    ensures str_bytes(r) == str_bytes(s).subrange(0, k as int),
+{ &s[..k] }
+
+// ---- `truncate`, `floor_char_boundary`, `is_utf8_char_boundary`: the real bodies -------------------------------------------
+/*@contract truncate
+        ensures truncated_to(str_bytes(s), r.bytes(), L as int),
+@*/
+//@extract src/webauthn.rs :: ^fn truncate<const L: usize> :: contracts=truncate:truncate :: str-prefix
+
+/*@contract floor_char_boundary
+        ensures
+            r <= index, r <= str_bytes(s).len(), boundary(str_bytes(s), r as int),
+            forall|k: int| r < k <= index && k <= str_bytes(s).len() ==> !boundary(str_bytes(s), k),
+@*/
+/*@inject fcb_closure
+            ensures r == ((*b & 0xC0u8) != 0x80u8)
+@*/
+/*@inject fcb_proof
+        proof {
+            let bytes__ = str_bytes(s);
+            let w__ = bytes__.subrange(lower_bound as int, index + 1);
+            assert forall|j: int| 0 <= j < w__.len() implies (call_ensures(pred__, (&w__[j],), false) ==> cont(bytes__[lower_bound + j])) by {
+                assert(w__[j] == bytes__[lower_bound + j]);
+            }
+            assert forall|j: int| 0 <= j < w__.len() implies (call_ensures(pred__, (&w__[j],), true) ==> !cont(bytes__[lower_bound + j])) by {
+                assert(w__[j] == bytes__[lower_bound + j]);
+            }
+            if index >= 3 { axiom_utf8_no_four_continuation_bytes(s, index - 3); } else { axiom_utf8_first_byte_not_continuation(s); }
+            if new_index is None {
+                assert(call_ensures(pred__, (&w__[0],), false));
+                if index >= 3 {
+                    assert(call_ensures(pred__, (&w__[1],), false));
+                    assert(call_ensures(pred__, (&w__[2],), false));
+                    assert(call_ensures(pred__, (&w__[3],), false));
+                }
+            } else {
+                let k__ = new_index->Some_0 as int;
+                assert(call_ensures(pred__, (&w__[k__],), true));
+                assert forall|q: int| lower_bound + k__ < q <= index implies !boundary(bytes__, q) by {
+                    assert(call_ensures(pred__, (&w__[q - lower_bound],), false));
+                }
+            }
+        }
+@*/
+//@extract src/webauthn.rs :: ^fn floor_char_boundary :: contracts=floor_char_boundary:floor_char_boundary :: str-len=s :: rposition=fcb_closure,fcb_proof
+
+/*@contract is_utf8_char_boundary
+        ensures r == ((b & 0xC0u8) != 0x80u8),
+@*/
+/*@inject iucb_proof
+    proof { assert(((b as i8) >= -0x40i8) == ((b & 0xC0u8) != 0x80u8)) by (bit_vector); }
+@*/
+//@extract src/webauthn.rs :: ^const fn is_utf8_char_boundary :: contracts=is_utf8_char_boundary:is_utf8_char_boundary :: proof-top=is_utf8_char_boundary:iucb_proof
 
 // ---- the two helpers ------------------------------------------------------------------------
 /*@contract skip_if_too_long
